@@ -129,7 +129,15 @@ pub mod txn {
     pub enum Cell {
         Int(i64),
         Bad,
+        Limit,
     }
+    impl Cell {
+        pub fn raises(&self) -> bool {
+            !matches!(self, Cell::Int(_))
+        }
+    }
+    /// per-row value expression: toInteger() raises on `true`; range() raises the collection-size limit
+    pub const ROW_EXPR: &str = "toInteger(r[1]) + 0 * size(range(1, r[2]))";
     #[derive(Clone, Debug, PartialEq)]
     pub enum Stmt {
         Create(Vec<(i64, Cell)>),
@@ -146,8 +154,9 @@ pub mod txn {
         let items: Vec<String> = rows
             .iter()
             .map(|(k, c)| match c {
-                Cell::Int(v) => format!("[{}, {}]", k, v),
-                Cell::Bad => format!("[{}, true]", k),
+                Cell::Int(v) => format!("[{}, {}, 1]", k, v),
+                Cell::Bad => format!("[{}, true, 1]", k),
+                Cell::Limit => format!("[{}, 1, 1000000]", k),
             })
             .collect();
         format!("[{}]", items.join(", "))
@@ -155,11 +164,12 @@ pub mod txn {
     impl Stmt {
         pub fn cypher(&self) -> String {
             match self {
-                Stmt::Create(rows) => format!("UNWIND {} AS r CREATE (:L {{k: r[0], v: toInteger(r[1])}})", rows_text(rows)),
+                Stmt::Create(rows) => format!("UNWIND {} AS r CREATE (:L {{k: r[0], v: {}}})", rows_text(rows), ROW_EXPR),
                 Stmt::Set(p, rows) => format!(
-                    "UNWIND {} AS r MATCH (n:L) WHERE n.k = r[0] SET n.{} = toInteger(r[1])",
+                    "UNWIND {} AS r MATCH (n:L) WHERE n.k = r[0] SET n.{} = {}",
                     rows_text(rows),
-                    PROPS[*p as usize]
+                    PROPS[*p as usize],
+                    ROW_EXPR
                 ),
                 Stmt::Delete(detach, k) => format!("MATCH (n:L) WHERE n.k = {} {}DELETE n", k, if *detach { "DETACH " } else { "" }),
                 Stmt::Link(a, b) => format!("MATCH (a:L), (b:L) WHERE a.k = {} AND b.k = {} CREATE (a)-[:R]->(b)", a, b),
@@ -170,7 +180,7 @@ pub mod txn {
         pub fn coq(&self) -> String {
             let rows = |rows: &[(i64, Cell)]| {
                 coq_list(rows, |(k, c)| {
-                    format!("({}, {})", coq_z(*k as i128), match c { Cell::Int(v) => format!("CInt {}", coq_z(*v as i128)), Cell::Bad => "CBad".into() })
+                    format!("({}, {})", coq_z(*k as i128), match c { Cell::Int(v) => format!("CInt {}", coq_z(*v as i128)), Cell::Bad => "CBad".into(), Cell::Limit => "CLimit".into() })
                 })
             };
             match self {
@@ -184,8 +194,8 @@ pub mod txn {
         }
         pub fn kind(&self) -> &'static str {
             match self {
-                Stmt::Create(r) => if r.iter().any(|x| x.1 == Cell::Bad) { "create-bad" } else { "create" },
-                Stmt::Set(_, r) => if r.iter().any(|x| x.1 == Cell::Bad) { "set-bad" } else { "set" },
+                Stmt::Create(r) => if r.iter().any(|x| x.1 == Cell::Limit) { "create-limit" } else if r.iter().any(|x| x.1.raises()) { "create-bad" } else { "create" },
+                Stmt::Set(_, r) => if r.iter().any(|x| x.1 == Cell::Limit) { "set-limit" } else if r.iter().any(|x| x.1.raises()) { "set-bad" } else { "set" },
                 Stmt::Delete(true, _) => "detach-delete",
                 Stmt::Delete(false, _) => "delete",
                 Stmt::Link(..) => "link",
@@ -243,7 +253,7 @@ pub mod txn {
         /// (explicit transactions plan every statement against it), fail after a write?
         pub fn fails_dirty(&self, s: &Stmt) -> bool {
             match s {
-                Stmt::Create(r) => r.iter().any(|x| x.1 == Cell::Bad),
+                Stmt::Create(r) => r.iter().any(|x| x.1.raises()),
                 Stmt::Set(_, r) => {
                     let has = |k: i64| self.nodes.iter().any(|n| n.0 == k);
                     let mut wrote = false;
@@ -252,7 +262,7 @@ pub mod txn {
                             continue;
                         }
                         match c {
-                            Cell::Bad => return wrote,
+                            Cell::Bad | Cell::Limit => return wrote,
                             Cell::Int(_) => wrote = true,
                         }
                     }
@@ -382,7 +392,7 @@ pub mod txn {
         (0..n)
             .map(|i| {
                 let k = if !keys.is_empty() && r.chance(3, 4) { *r.pick(keys) } else { r.range(1, 9) };
-                (k, if Some(i) == badpos { Cell::Bad } else { Cell::Int(r.range(-5, 20)) })
+                (k, if Some(i) == badpos { if r.chance(1, 3) { Cell::Limit } else { Cell::Bad } } else { Cell::Int(r.range(-5, 20)) })
             })
             .collect()
     }
